@@ -31,7 +31,20 @@ def sandbox_reads(p, upto, this_is_volatile):
 
 
 def verifier_calls(p):
-    return [(i, e) for i, e in enumerate(p.events) if e.kind == "CALL" and e.c is not None and strip_casts(e.c) in (("pobj", "verifier"), ("addr", ("pobj", "verifier")))]
+    """calls of the verifier parameter, also through by-value copies of it handed to a helper"""
+    def is_verifier(o):
+        o = strip_casts(o)
+        for _ in range(6):
+            if isinstance(o, tuple) and o[:1] == ("addr",):
+                o = o[1]
+            if o == ("pobj", "verifier"):
+                return True
+            c_ = p.state.mem.get(("copyof", o)) if isinstance(o, tuple) else None
+            if c_ is None:
+                return False
+            o = c_
+        return False
+    return [(i, e) for i, e in enumerate(p.events) if e.kind == "CALL" and e.c is not None and is_verifier(e.c)]
 
 
 def local_object(p, t):
@@ -134,9 +147,18 @@ def check_variant(rep, db, f, inst):
             if len({fmt(e.a) for e in cells}) != len(cells):
                 rep.violation("R-C09-single-fetch", site(f), "the pointee is fetched more than once before the verifier runs", f["loc"], inst)
                 return
+        if sn in ("copy_and_verify_address", "copy_and_verify_buffer_address") and this_vol:
+            cells = [e for e in reads if root_of(e.a) == THIS_OBJ]
+            if len(cells) != 1:
+                rep.violation("R-C09-single-fetch", site(f), "the pointer cell in sandbox memory is read %d times before the verifier is called: the address that was checked need not be the address the verifier receives" % len(cells),
+                              cells[-1].loc if cells else f["loc"], inst)
+                return
+            addr_ok = True
         if sn in ("copy_and_verify_range", "copy_and_verify_string"):
             if not check_lengths(rep, db, f, inst, p, i, sn):
                 return
+    if sn in ("copy_and_verify_address", "copy_and_verify_buffer_address") and this_vol:
+        rep.ok("R-C09-single-fetch", site(f), "the pointer cell is fetched once", inst)
     rep.ok("R-C09-snapshot", site(f), "verifier called once with a by-value / local snapshot; no sandbox read afterwards (%d paths)" % len(ps), inst)
     if sn in ("copy_and_verify_range", "copy_and_verify_string") or (sn == "copy_and_verify" and this_vol):
         rep.ok("R-C09-single-fetch", site(f), "one fetch per cell / one length value throughout", inst)
